@@ -123,6 +123,17 @@ Theorem factor_map_exact_intra_members :
 Proof. exact FactorMapProofs.factor_map_intra_members. Qed.
 Print Assumptions factor_map_exact_intra_members.
 
+(** without composite objects (one point mass per root node; identifiers have one level) the index sets are
+    ignored: the active unit is paired with every other root node, each once *)
+Theorem no_composite_exact :
+  forall (nroot r : Z), (0 <= r < nroot)%Z ->
+    let spec := map (fun o => [[r]; [o]]) (other_roots nroot r) in
+    yield_no_composite nroot [r] = FOk spec /\ NoDup spec
+    /\ (forall m, fm_local m = Some false -> yield_factor_identifier 1 nroot m [r] = FOk spec)
+    /\ yield_default 1 nroot [r] = FOk spec.
+Proof. exact FactorMapProofs.no_composite_exact. Qed.
+Print Assumptions no_composite_exact.
+
 (** the tagger's set(...): duplicate-free, same members (several active leaves) *)
 Theorem dedup_sound :
   forall l : list finstate, NoDup (dedup l) /\ (forall x, In x (dedup l) <-> In x l).
@@ -201,6 +212,10 @@ Proof. vm_compute. split; [reflexivity|]. split; eexists; repeat split. Qed.
 Example factor_map_exact_members_nonvacuous :
   sets_with ex_file ex_lj 1 = [[1; 4]]%Z /\ other_roots 3 1 = [0; 2]%Z /\ sets_with ex_file ex_har 1 = [[0; 1]; [1; 2]]%Z.
 Proof. vm_compute. auto. Qed.
+
+Example no_composite_exact_nonvacuous :
+  yield_no_composite 3 [1%Z] = FOk [[[1]; [0]]; [[1]; [2]]]%Z.
+Proof. vm_compute. reflexivity. Qed.
 
 Example dedup_sound_nonvacuous :
   exists m, fget ex_fs ex_har = Some m
